@@ -239,6 +239,9 @@ pub fn run_chunkings(data: &[u8], all_cuts: bool) -> Result<u64, String> {
 }
 
 pub fn replay(case: &Value) -> Result<String, String> {
+    if let Some(r) = super::seqread::replay(case) {
+        return r;
+    }
     match case["kind"].as_str().unwrap() {
         "mutants" => {
             let kvs = kvs_from(&case["kvs"]);
@@ -502,5 +505,7 @@ pub fn plan(tier: Tier) -> Plan {
         }
     }
     p.must_be_nonzero = vec!["sink_policy_runs".into(), "mutants".into(), "chunkings".into(), "ladder_files".into()];
+    p.rule.push_str(super::seqread::RULE);
+    super::seqread::add_units(&mut p, super::seqread::Class::Verify, if tier.thorough() { 5 } else { 4 });
     p
 }
